@@ -14,7 +14,7 @@ import (
 
 func init() {
 	register(&Rule{ID: "E4.array-index", Min: 6,
-		Text: "every index into a fixed-size array made by a function reachable from the decoder - in this module or in the thrift helper package it calls - is within the array by the value range of its operand (type width, masks, shifts, constants, dominating comparisons); a signed narrow operand (e.g. a wire type byte held as int8) needs a dominating non-negativity test, or every call path from the decoder to the function passes a function that recovers the panic into an error",
+		Text: "every index into a fixed-size array made by a function reachable from the codec entry points - in this module or in the thrift helper package it calls - is within the array by the value range of its operand (type width, masks, shifts, constants, dominating comparisons); a signed narrow operand (e.g. a wire type byte held as int8) needs a dominating non-negativity test, or every call path from the decoder to the function passes a function that recovers the panic into an error",
 		Run:  ruleArrayIndex})
 }
 
@@ -217,17 +217,17 @@ func recovers(fn *ssa.Function) bool {
 
 func ruleArrayIndex(c *Ctx) []Ob {
 	s := newSink(c, "E4.array-index")
-	root := c.SSA[pkgReflect].Func("Decode")
-	if root == nil {
-		s.bad("roots", "-", "reflect.Decode not found")
+	roots := c.apiRoots()
+	if len(roots) == 0 {
+		s.bad("roots", "-", "codec entry points not found")
 		return s.obs
 	}
 	inScope := func(f *ssa.Function) bool {
 		return f.Blocks != nil && (c.InModule(f) || strings.HasPrefix(fnPkgPath(f), gopkgPrefix))
 	}
-	all := c.reachableFrom([]*ssa.Function{root}, nil)
+	all := c.reachableFrom(roots, nil)
 	// functions still reachable when calls out of recovering functions are not followed
-	unprotected := c.reachableFrom([]*ssa.Function{root}, func(e *callgraph.Edge) bool {
+	unprotected := c.reachableFrom(roots, func(e *callgraph.Edge) bool {
 		return e.Caller.Func != nil && recovers(e.Caller.Func)
 	})
 	var fns []*ssa.Function
